@@ -3,6 +3,8 @@ package main
 import (
 	"fmt"
 	"math"
+	"os"
+	"sort"
 	"strings"
 	"sync"
 
@@ -17,6 +19,7 @@ import (
 type feedBuf struct {
 	mu  sync.Mutex
 	ops []patch.Op
+	bad map[int]bool // positions of records that did not survive Encode / DecodeOp
 }
 
 func hexs(ss []string) []string {
@@ -98,7 +101,10 @@ func renderOp(op patch.Op) string {
 		args = []string{fmt.Sprint(d.Start), fmt.Sprint(d.Stop)}
 	case *patch.OpZRemRangeByScore:
 		args = []string{fbits(d.Min), fbits(d.Max), fmt.Sprint(d.Mode)}
-	case *patch.OpZUnionStore, *patch.OpZInterStore:
+	case *patch.OpZUnionStore:
+		args = zstoreArgs(d.Aggregate, d.Keys, d.Weights)
+	case *patch.OpZInterStore:
+		args = zstoreArgs(d.Aggregate, d.Keys, d.Weights)
 	default:
 		args = []string{"?"}
 	}
@@ -121,8 +127,18 @@ func (st *state) feedOp(toks []string) string {
 		}
 		fb := in.feed
 		in.n.WatchKey(patterns, func(op patch.Op) {
+			// like Broadcast, the watcher puts the record on the wire at once (the fields of a
+			// record may share memory with the store and change under later commands)
+			dec, err := patch.DecodeOp(op.Encode())
 			fb.mu.Lock()
-			fb.ops = append(fb.ops, op)
+			if err != nil {
+				if fb.bad == nil {
+					fb.bad = map[int]bool{}
+				}
+				fb.bad[len(fb.ops)] = true
+				dec = op
+			}
+			fb.ops = append(fb.ops, dec)
 			fb.mu.Unlock()
 		})
 		return "ok"
@@ -133,10 +149,20 @@ func (st *state) feedOp(toks []string) string {
 		in.feed.mu.Lock()
 		ops := in.feed.ops
 		in.feed.ops = nil
+		in.feed.bad = nil
 		in.feed.mu.Unlock()
 		parts := make([]string, len(ops))
 		for i, op := range ops {
 			parts[i] = renderOp(op)
+		}
+		// HMSET hands its fields over in the order of a Go map: records that set different
+		// fields of one hash commute, so a drain made of such records only is sorted
+		allHSet := len(ops) > 1
+		for _, op := range ops {
+			allHSet = allHSet && op.Type == patch.OpTypeHSet && op.Data.GetKey() == ops[0].Data.GetKey()
+		}
+		if allHSet {
+			sort.Strings(parts)
 		}
 		return compact("feed " + strings.Join(parts, " "))
 	case "replicate": // replicate <replica id>: drain the current instance's feed into the replica
@@ -146,9 +172,15 @@ func (st *state) feedOp(toks []string) string {
 		}
 		in.feed.mu.Lock()
 		ops := in.feed.ops
+		bad := in.feed.bad
 		in.feed.ops = nil
+		in.feed.bad = nil
 		in.feed.mu.Unlock()
 		for i, op := range ops {
+			if bad[i] {
+				fmt.Fprintf(os.Stderr, "DECODE-ERROR at record %d (%s)\n", i, renderOp(op))
+				return "DECODE-ERROR"
+			}
 			res := func() (res string) {
 				defer func() {
 					if r := recover(); r != nil {
@@ -165,10 +197,20 @@ func (st *state) feedOp(toks []string) string {
 				return ""
 			}()
 			if res != "" {
-				return res
+				fmt.Fprintln(os.Stderr, res)
+				return strings.Fields(res)[0]
 			}
 		}
 		return fmt.Sprintf("ok n=%d", len(ops))
 	}
 	return "bad-op"
+}
+
+func zstoreArgs(aggregate string, keys []string, weights []float64) []string {
+	args := append([]string{toHex([]byte(aggregate))}, hexs(keys)...)
+	args = append(args, "|")
+	for _, w := range weights {
+		args = append(args, fbits(w))
+	}
+	return args
 }
